@@ -14,25 +14,14 @@
 (*                 terminal, target], start, events, final_open, draws,    *)
 (*          nodes (for the structure clauses)]                             *)
 (***************************************************************************)
-EXTENDS Sampler, Chem, Json, IOUtils
-
-F == INSTANCE FragText
+EXTENDS SamplerCfg, Json, IOUtils
 
 Traces == JsonDeserialize(IOEnv.TRACE_FILE)
 VARIABLES tid, l, S, bad, K
 vars == <<tid, l, S, bad, K>>
 T == Traces[tid]
 
-Tr(d) == <<d[1], d[2], d[3]>>
-Cfg ==
-  [ frags |-> [i \in DOMAIN T.K.frags |->
-                 LET fs == F!DenoteF(T.K.frags[i][2], T.K.coarse) IN
-                 [ name |-> T.K.frags[i][1], natoms |-> Len(fs.atoms), desc |-> fs.desc,
-                   atoms |-> fs.atoms, bonds |-> fs.bonds, mass |-> T.K.masses[i] ]],
-    react |-> {<<Tr(r[1]), r[2]>> : r \in SToSet(T.K.react)},
-    cond |-> {<<Tr(c[1]), Tr(c[2]), c[3]>> : c \in SToSet(T.K.cond)},
-    terminal |-> {Tr(d) : d \in SToSet(T.K.terminal)},
-    target |-> T.K.target ]
+Cfg == CfgOf(T.K, T.K.masses, T.K.target)
 
 Ev == T.events[l]
 Site == <<Ev.site[1], Ev.site[2]>>
@@ -65,16 +54,6 @@ Replayable == Site \in DOMAIN S.open /\ Ev.f \in DOMAIN K.frags /\ Ev.t \in DOMA
 FinalOpen == [x \in {<<o[1], o[2]>> : o \in SToSet(T.final_open)} |->
                  LET o == CHOOSE y \in SToSet(T.final_open) : <<y[1], y[2]>> = x IN [i \in DOMAIN o[3] |-> Tr(o[3][i])]]
 SameBagS(a, b) == Len(a) = Len(b) /\ \A x \in SToSet(a) \cup SToSet(b) : CountS(a, x) = CountS(b, x)
-MassOf(f) ==
-  LET fr == K.frags[f] IN
-  LET B2(a) == LET es == {e \in fr.bonds : a - 1 \in {e[1], e[2]}} IN
-               LET Sm[X \in SUBSET es] == IF X = {} THEN 0 ELSE LET x == CHOOSE y \in X : TRUE IN x[3] + Sm[X \ {x}] IN Sm[es] IN
-  LET Tot[i \in 0..fr.natoms] == IF i = 0 THEN 0
-        ELSE LET at == fr.atoms[i] IN
-             Tot[i - 1] + (IF at.el \in DOMAIN MassMilli THEN MassMilli[at.el] ELSE 0)
-                        + (IF Fits(at.el, at.ch, B2(i)) THEN Need(at.el, at.ch, B2(i)) * MassMilli["H"] ELSE 0)
-  IN Tot[fr.natoms]
-MassKnown(f) == \A i \in DOMAIN K.frags[f].atoms : K.frags[f].atoms[i].el \in DOMAIN MassMilli
 Abs(x) == IF x < 0 THEN -x ELSE x
 
 FinalClauses ==
@@ -84,8 +63,8 @@ FinalClauses ==
                                 /\ \A x \in DOMAIN S.open : SameBagS(FinalOpen[x], S.open[x]),
     C17_TerminalClosesAtom |-> TerminalClosesAtom(K, S),
     C17_TerminalsWithdrawn |-> TerminalsWithdrawn(K, S),
-    C17_MassTable |-> T.K.coarse \/ \A f \in DOMAIN K.frags : MassKnown(f) =>
-                         Abs(K.frags[f].mass - MassOf(f)) <= 12 * (K.frags[f].natoms * 4),
+    C17_MassTable |-> T.K.coarse \/ \A f \in DOMAIN K.frags : MassKnown(K, f) =>
+                         Abs(K.frags[f].mass - MassOf(K, f)) <= 12 * (K.frags[f].natoms * 4),
     C16_Tree |-> Tree(S) /\ T.tree_ok,
     C16_NeverZero |-> NeverZero(K, S) ]
 
